@@ -24,7 +24,7 @@ def genCM : CM := cmOfTbl genTbl []
 def pinnedSkeleton : List (String × String) := [
   ("ParseValue", "aee9fa3d28d3"),
   ("ParseValueString", "03432091c79e"),
-  ("exeParser.readField", "3263274132a4"),
+  ("exeParser.readField", "a34d4efa5ee5"),
   ("exeParser.readFragRef", "9c97fce48d73"),
   ("exeParser.readFragment", "9888b86ba516"),
   ("exeParser.readFragmentDef", "3281aee512e0"),
